@@ -177,12 +177,12 @@ func (w *simWriter) Write(p []byte) (int, error) {
 
 // ---------------------------------------------------------------------------------------
 
-var scenNames = []string{"cbc_roundtrip", "gcm_roundtrip", "stream_roundtrip", "entropy_error", "gcm_tamper", "cbc_tamper", "stream_fault", "garbage"}
+var scenNames = []string{"cbc_roundtrip", "gcm_roundtrip", "stream_roundtrip", "entropy_error", "gcm_tamper", "cbc_tamper", "stream_fault", "garbage", "buffer_reuse"}
 
 func gen(r *sim.Rng, tier string) *sim.Case {
 	c := &sim.Case{Params: map[string]int{}}
 	p := c.Params
-	p["scen"] = r.Pick(3, 3, 4, 1, 4, 2, 4, 3)
+	p["scen"] = r.Pick(3, 3, 4, 1, 4, 2, 4, 3, 2)
 	plens := []int{0, 1, 15, 16, 17, 31, 32, 33, 47, 48, 64, 100, 200}
 	p["plen"] = plens[r.N(len(plens))]
 	if r.Pct(30) {
@@ -229,6 +229,11 @@ func gen(r *sim.Rng, tier string) *sim.Case {
 		p["which"] = r.N(2)    // 0: reader fails, 1: writer fails
 		p["at"] = r.N(1 << 16) // position, reduced modulo the relevant length (+1)
 		p["fdata"] = r.N(2)
+	case 8:
+		p["api"] = r.N(3)
+		p["smut"] = r.N(3)
+		p["tpos"] = r.N(1 << 16)
+		p["tbit"] = r.N(8)
 	case 7:
 		p["glen"] = r.N(90)
 		if r.Pct(20) {
@@ -388,7 +393,7 @@ func exec(c *sim.Case, out *sim.WorkerOut) (*sim.Violation, bool) {
 		scen = 0
 	}
 	var v *sim.Violation
-	site := []string{"Encrypt", "GCMEncrypt", "EncryptStreamTo", "Encrypt", "GCMDecrypt", "Decrypt", "DecryptStreamTo", "Decrypt"}[scen]
+	site := []string{"Encrypt", "GCMEncrypt", "EncryptStreamTo", "Encrypt", "GCMDecrypt", "Decrypt", "DecryptStreamTo", "Decrypt", "Decrypt"}[scen]
 	pv := engc.Call("cryptz."+site, func() {
 		switch scen {
 		case 0:
@@ -407,6 +412,8 @@ func exec(c *sim.Case, out *sim.WorkerOut) (*sim.Violation, bool) {
 			v = w.streamFault()
 		case 7:
 			v = w.garbage()
+		case 8:
+			v = w.bufferReuse()
 		}
 	})
 	if pv != nil {
@@ -427,7 +434,7 @@ func exec(c *sim.Case, out *sim.WorkerOut) (*sim.Violation, bool) {
 		out.Faults["entropy_extreme_bytes"]++
 	}
 	c.LogHash = w.dg.Hex()
-	nontrivial := len(w.stats) > 0 || scrand.Errors > 0 || (scrand.MaxChunk > 0 && scrand.Calls > 1) || scrand.Mode != 0 || scen == 4 || scen == 5 || scen == 7
+	nontrivial := len(w.stats) > 0 || scrand.Errors > 0 || (scrand.MaxChunk > 0 && scrand.Calls > 1) || scrand.Mode != 0 || scen == 4 || scen == 5 || scen == 7 || scen == 8
 	return v, nontrivial
 }
 
@@ -559,6 +566,138 @@ func (w *world) streamRoundtrip() *sim.Violation {
 	}
 	if !bytes.Equal(dst.buf.Bytes(), w.plain) {
 		return viol("roundtrip", "DecryptStreamTo", "DecryptStreamTo(EncryptStreamTo(p)) != p (reader policies %d/%d)", p["rpol"], p["rpol2"])
+	}
+	return nil
+}
+
+// bufferReuse: the caller keeps plaintext, secret and additional data in buffers of its own and
+// overwrites them after a call (reads the next key into the same buffer, wipes a key, reuses
+// a message buffer).  Nothing a call returned, and nothing a later call computes, may depend on
+// what those buffers held earlier.
+func (w *world) bufferReuse() *sim.Violation {
+	p := w.c.Params
+	api := p["api"] % 3
+	names := [][2]string{{"Encrypt", "Decrypt"}, {"GCMEncrypt", "GCMDecrypt"}, {"EncryptStreamTo", "DecryptStreamTo"}}[api]
+	scribble := func(b []byte) {
+		for i := range b {
+			b[i] ^= 0xA5
+		}
+	}
+	enc := func() ([]byte, error) {
+		switch api {
+		case 0:
+			return w.encrypt()
+		case 1:
+			return w.gcmEncrypt()
+		}
+		var mid simWriter
+		mid.failAt, mid.stats = -1, w.stats
+		err := w.encStream(&mid, w.reader(w.plain, 0, -1, false))
+		return mid.buf.Bytes(), err
+	}
+	dec := func(ct []byte) ([]byte, error) {
+		switch api {
+		case 0:
+			return w.decrypt(ct)
+		case 1:
+			return w.gcmDecrypt(ct, w.secret, w.aad)
+		}
+		var dst simWriter
+		dst.failAt, dst.stats = -1, w.stats
+		err := w.decStream(&dst, w.reader(ct, 0, -1, false))
+		return dst.buf.Bytes(), err
+	}
+	ct, err := enc()
+	if err != nil {
+		return viol("roundtrip", names[0], "%s failed without an entropy error: %v", names[0], err)
+	}
+	salt := append([]byte{}, scrand.Trace...)
+	if len(salt) != 8 {
+		return viol("wire_format", names[0], "the encryptor consumed %d entropy bytes, a salt has 8", len(salt))
+	}
+	// (a) the returned message does not share memory with the arguments
+	ct0 := append([]byte{}, ct...)
+	scribble(w.plain)
+	scribble(w.aad)
+	same := bytes.Equal(ct, ct0)
+	scribble(w.plain)
+	scribble(w.aad)
+	if !same {
+		return viol("output_aliases_input", names[0], "the message returned by %s changed when the caller overwrote its plaintext / additional data buffers afterwards", names[0])
+	}
+	w.stats["caller_overwrites_argument_buffers"]++
+	// (b) the key buffer is overwritten in place: the old key must not open anything any more
+	s1 := append([]byte{}, w.secret...)
+	if len(w.secret) > 0 {
+		switch p["smut"] {
+		case 0:
+			w.secret[p["tpos"]%len(w.secret)] ^= 1 << p["tbit"]
+		case 1:
+			copy(w.secret, w.r.Bytes(len(w.secret)))
+		default:
+			for i := range w.secret {
+				w.secret[i] = 0
+			}
+		}
+	}
+	if !bytes.Equal(w.secret, s1) {
+		w.stats["caller_overwrites_key_buffer"]++
+		pt, err := dec(ct0)
+		w.dg.Add(err != nil, len(pt))
+		var raw []byte
+		switch api {
+		case 0:
+			raw, _ = base64.StdEncoding.DecodeString(string(ct0))
+		case 1:
+			raw, _ = hex.DecodeString(string(ct0))
+		default:
+			raw = ct0
+		}
+		key, iv := evp(w.secret, salt)
+		b, _ := aes.NewCipher(key)
+		switch api {
+		case 1:
+			if err == nil {
+				return viol("tamper_accepted", names[1], "GCMDecrypt accepted a message under a different secret (the caller's key buffer was overwritten in place after the encrypting call)")
+			}
+		case 0:
+			if err == nil && len(raw) >= 32 && (len(raw)-16)%16 == 0 {
+				out := make([]byte, len(raw)-16)
+				cipher.NewCBCDecrypter(b, iv).CryptBlocks(out, raw[16:])
+				if len(pt) > len(out) || !bytes.Equal(pt, out[:len(pt)]) {
+					return viol("wire_format", names[1], "Decrypt under a secret written into the reused key buffer returned bytes that are not the AES-256-CBC decryption under the key derived from that secret")
+				}
+			}
+		default:
+			out := make([]byte, len(raw)-16)
+			cipher.NewCTR(b, iv).XORKeyStream(out, raw[16:])
+			if err != nil || !bytes.Equal(pt, out) {
+				return viol("wire_format", names[1], "DecryptStreamTo under a secret written into the reused key buffer is not AES-256-CTR under the key derived from that secret (err %v)", err)
+			}
+		}
+	}
+	// (c) the original key is read back into the buffer: the message opens again
+	copy(w.secret, s1)
+	pt, err := dec(ct0)
+	if err != nil || !bytes.Equal(pt, w.plain) {
+		return viol("roundtrip", names[1], "%s(%s(p)) = %d bytes, %v after the key buffer held another key in between", names[1], names[0], len(pt), err)
+	}
+	// (d) the returned plaintext does not share memory with the message buffer
+	if api != 2 && p["variant"]&1 == 0 {
+		buf := append([]byte{}, ct0...)
+		var pt2 []byte
+		if api == 0 {
+			pt2, err = cryptz.Decrypt(buf, w.secret)
+		} else {
+			pt2, err = cryptz.GCMDecrypt(buf, w.secret, w.aad)
+		}
+		if err != nil || !bytes.Equal(pt2, w.plain) {
+			return viol("roundtrip", names[1], "%s of the message in a caller buffer: %v", names[1], err)
+		}
+		scribble(buf)
+		if !bytes.Equal(pt2, w.plain) {
+			return viol("output_aliases_input", names[1], "the plaintext returned by %s changed when the caller reused its message buffer", names[1])
+		}
 	}
 	return nil
 }
